@@ -21,6 +21,7 @@ import Selene.Scope.Spec
 import Selene.Scope.RenameProof
 import Selene.Scope.CoreProof
 import Selene.Scope.ManualTableCloneRename
+import Selene.Generated.SpecialNames
 namespace Selene.Props.C14
 open Selene.Scope.Spec
 
@@ -122,6 +123,30 @@ example :
     ((loop "walked").map fun p => (p.1, p.2.2.text)) = some (.other, "copy") ∧
     (loop "pairs").isNone := by
   decide
+
+/-! ### "the few names lints treat specially", read off the source on every run -/
+
+/-- **C14 (the special spellings are these).** `tools/translate.py` collects, from every lint's source file and the helpers
+lints share, the string literals that names are compared with (`== "x"`, match arms, `[..].contains`); the table is
+regenerated on every run and must be this one.  A change that makes another spelling special — or special in another way than
+by such a comparison — shows up here or in the twin runs.  Identifier spellings among them: `_G`, `shared` (global_usage);
+`pairs`, `ipairs`, `next` (manual_table_clone: `C14_clone_shape_invariant`); `Roact`, `React`, `createElement`, `Event`, `Name`,
+`ref`, `key`, `children` (roblox_incorrect_roact_usage: `Lints/Roact.lean`); `Color3`, `UDim2`, `new` (the Roblox constructor
+lints); `type`, `typeof` (type_check_inside_call); `...` (shadowing); `game`, `plugin`, `script`, `workspace` (the
+"found in the roblox standard library" note).  The rest are characters of escape sequences, `*` and `nil`. -/
+theorem C14_special_spellings :
+    Selene.Generated.specialNames = [
+      ("lints/bad_string_escape.rs", ["", "'", "0", "1", "2", "3", "4", "5", "6", "7", "8", "9", "a", "b", "f", "n", "r", "t", "u{", "v", "x", "z"]),
+      ("lints/deprecated.rs", ["*", "nil"]),
+      ("lints/global_usage.rs", ["_G", "shared"]),
+      ("lints/manual_table_clone.rs", ["ipairs", "manual_table_clone", "next", "pairs"]),
+      ("lints/roblox_incorrect_color3_new_bounds.rs", ["Color3", "new"]),
+      ("lints/roblox_incorrect_roact_usage.rs", ["Event", "Name", "React", "Roact", "children", "createElement", "key", "ref"]),
+      ("lints/roblox_manual_fromscale_or_fromoffset.rs", ["UDim2", "new"]),
+      ("lints/roblox_suspicious_udim2_new.rs", ["UDim2", "new"]),
+      ("lints/shadowing.rs", ["..."]),
+      ("ast_util/mod.rs", ["type", "typeof"]),
+      ("possible_std.rs", ["game", "plugin", "script", "workspace"])] := rfl
 
 /-- declaring under the renamed name is the renaming of declaring under the old one -/
 theorem declare_rename (ρ : String → String) (env : Env) (t : Nat) (name : String) (k : DeclKind) :
